@@ -754,6 +754,7 @@ func c12R2(p *core.Program, r *core.Report) {
 		r.Anchor(rule, "pkg/types.(*pkgInfo).priorCommentLines")
 		return
 	}
+	f = flatten(p, f) // the reading half may be a helper (a method of an embedded index part)
 	info := f.Info()
 	g := graph(f)
 	var delta *types.Var
@@ -784,6 +785,14 @@ func c12R2(p *core.Program, r *core.Report) {
 				if v, isEq := varEqConst(info, fct, delta, 0); isEq && v {
 					ok = true
 				}
+				// a boolean that was computed as `delta == 0` (the argument of a helper's parameter)
+				if bv := core.VarOf(info, fct.Cond); bv != nil && fct.Tag == nil {
+					if d, single := core.SingleDef(info, f.Body, bv); single && d.Index < 0 {
+						if v, isEq := varEqConst(info, cfgx.Fact{Cond: d.Rhs, Val: fct.Val}, delta, 0); isEq && v {
+							ok = true
+						}
+					}
+				}
 			}
 			r.Check(ok, rule, f, "trailing index is read only for delta 0", ix.Pos(), "dominated by delta == 0", "the trailing index is consulted for the doc lookup (delta != 0): a trailing comment of the previous line is returned as documentation")
 		} else {
@@ -803,7 +812,7 @@ func c12R2(p *core.Program, r *core.Report) {
 		if kv, ok := el.(*ast.KeyValueExpr); ok {
 			el = kv.Value
 		}
-		if b, ok := ast.Unparen(el).(*ast.BinaryExpr); ok && b.Op == token.ADD && core.VarOf(info, b.Y) == delta {
+		if b, ok := ast.Unparen(el).(*ast.BinaryExpr); ok && b.Op == token.ADD && core.CanonVarOf(info, f.Body, b.Y) == delta { // delta itself or the parameter of an inlined key helper bound to it
 			if sel, ok := ast.Unparen(b.X).(*ast.SelectorExpr); ok && sel.Sel.Name == "Line" {
 				okKey = true
 			}
@@ -1226,6 +1235,9 @@ func c12R4(p *core.Program, r *core.Report) {
 			}
 			okSplit = notYet && delim
 		}
+		if !okSplit {
+			okSplit = splitAtFirstSeparator(sk)
+		}
 		r.Check(okSplit, rule, sk, "key ends at the first '=' or ' ' only", sk.Node().Pos(), "switch to the value under `!forValue && (c == '=' || c == ' ')`", "the key/value split is not made at the first '=' or space only (e.g. every '=' is dropped from the value)")
 	}
 	// go: lines are dropped
@@ -1281,4 +1293,142 @@ func c12R4(p *core.Program, r *core.Report) {
 			r.Check(good, rule, cl, "the comment text is cut at every line break: "+name, c.Pos(), "split on \"\\n\" without a limit", "the text of a comment group is not cut at every line break ("+core.ExprStr(c)+"): lines of a block comment stay glued together, tag lines inside are never classified")
 		}
 	}
+}
+
+// evalRuneCond evaluates a condition built from comparisons of the rune variable c with constants, for c = r.
+func evalRuneCond(info *types.Info, e ast.Expr, c *types.Var, r rune) (bool, bool) {
+	e = ast.Unparen(e)
+	switch x := e.(type) {
+	case *ast.UnaryExpr:
+		if x.Op == token.NOT {
+			v, ok := evalRuneCond(info, x.X, c, r)
+			return !v, ok
+		}
+	case *ast.BinaryExpr:
+		switch x.Op {
+		case token.LAND, token.LOR:
+			a, ok1 := evalRuneCond(info, x.X, c, r)
+			b, ok2 := evalRuneCond(info, x.Y, c, r)
+			if !ok1 || !ok2 {
+				return false, false
+			}
+			if x.Op == token.LAND {
+				return a && b, true
+			}
+			return a || b, true
+		case token.EQL, token.NEQ:
+			var k int64
+			var isC bool
+			if core.VarOf(info, x.X) == c {
+				k, isC = core.ConstInt(info, x.Y)
+			} else if core.VarOf(info, x.Y) == c {
+				k, isC = core.ConstInt(info, x.X)
+			}
+			if !isC {
+				return false, false
+			}
+			return (rune(k) == r) == (x.Op == token.EQL), true
+		}
+	}
+	return false, false
+}
+
+// splitAtFirstSeparator recognises the early-exit spelling of the key/value split: a loop over the runes of the
+// parameter that stops (break / return) exactly when the rune is '=' or ' ' - the stop condition has the truth table
+// {'=': true, ' ': true, anything else: false} and mentions nothing but the rune - takes `line[i+1:]` (i the rune's
+// index, both separators are one byte wide) as the value on that edge, and the runes before it (written one by one on
+// the other edge, or `line[:i]`) as the key.
+func splitAtFirstSeparator(sk *core.Func) bool {
+	info := sk.Info()
+	g := graph(sk)
+	if len(sk.Decl.Type.Params.List) != 1 || len(sk.Decl.Type.Params.List[0].Names) != 1 {
+		return false
+	}
+	line, _ := info.ObjectOf(sk.Decl.Type.Params.List[0].Names[0]).(*types.Var)
+	var rs *ast.RangeStmt
+	for _, st := range sk.Body.List {
+		if x, ok := st.(*ast.RangeStmt); ok && core.VarOf(info, x.X) == line && x.Key != nil && x.Value != nil {
+			rs = x
+		}
+	}
+	if rs == nil || line == nil {
+		return false
+	}
+	iv, cv := core.VarOf(info, rs.Key), core.VarOf(info, rs.Value)
+	if iv == nil || cv == nil {
+		return false
+	}
+	// the stop: an if directly in the loop body whose body leaves the loop
+	var stop *ast.IfStmt
+	for _, st := range rs.Body.List {
+		ifs, ok := st.(*ast.IfStmt)
+		if !ok || ifs.Else != nil || ifs.Init != nil || len(ifs.Body.List) == 0 {
+			continue
+		}
+		switch last := ifs.Body.List[len(ifs.Body.List)-1].(type) {
+		case *ast.BranchStmt:
+			if last.Tok == token.BREAK && last.Label == nil {
+				stop = ifs
+			}
+		case *ast.ReturnStmt:
+			stop = ifs
+		}
+	}
+	if stop == nil {
+		return false
+	}
+	for _, tc := range []struct {
+		r    rune
+		want bool
+	}{{'=', true}, {' ', true}, {'a', false}, {'+', false}, {'\t', false}, {':', false}, {0xe9, false}, {0, false}} {
+		v, ok := evalRuneCond(info, stop.Cond, cv, tc.r)
+		if !ok || v != tc.want {
+			return false
+		}
+	}
+	// value: line[i+1:] inside the stop, and no other cut of the line relative to i except line[:i]
+	bc := &boundsCtx{f: sk, g: g, info: info}
+	valueCut, badCut, keyCut := false, false, false
+	ast.Inspect(sk.Body, func(n ast.Node) bool {
+		se, ok := n.(*ast.SliceExpr)
+		if !ok || core.VarOf(info, se.X) != line {
+			return true
+		}
+		inStop := stop.Body.Pos() <= se.Pos() && se.End() <= stop.Body.End()
+		switch {
+		case se.High == nil && se.Low != nil:
+			l, okL := bc.linOf(se.Low, cfgx.Point{})
+			if okL && len(l.Atoms) == 1 && l.Atoms[0].Var == iv && l.Coef[0] == 1 && l.C == 1 && inStop {
+				valueCut = true
+			} else {
+				badCut = true
+			}
+		case se.Low == nil && se.High != nil:
+			if core.VarOf(info, se.High) == iv {
+				keyCut = true
+			} else {
+				badCut = true
+			}
+		default:
+			badCut = true
+		}
+		return true
+	})
+	if !valueCut || badCut {
+		return false
+	}
+	// key: the rune is written on the edge on which the loop goes on (after the stop), or the key is line[:i]
+	keyWrite := false
+	for _, st := range rs.Body.List {
+		if st.Pos() < stop.End() {
+			continue
+		}
+		for _, c := range core.Calls(st, true) {
+			name := core.CalleeName(info, c)
+			if (strings.HasSuffix(name, ").WriteRune") || strings.HasSuffix(name, ").WriteByte") || strings.HasSuffix(name, ").WriteString")) && len(c.Args) == 1 && core.Mentions(info, c.Args[0], cv) {
+				keyWrite = true
+			}
+		}
+	}
+	return keyWrite || keyCut
 }
